@@ -188,7 +188,7 @@ func propRoundTrip(c harness.Case) harness.Result {
 }
 
 // Canonical-style documents over the supported construct set (DESIGN.md C20).
-var canonRestrict = model.Restrict{NoMultiLineInContainer: true}
+var canonRestrict = model.Restrict{}
 
 func genCanonical(sz model.Size) func(t *rapid.T) harness.Case {
 	return func(t *rapid.T) harness.Case {
